@@ -199,6 +199,10 @@ def gen_c04(env, tier):
                 for k in range(len(r)):
                     if rnd.random() < 0.3:
                         r[k] = False
+        if case.weights is not None and case.weights["kind"] == "array" and case.func in ("mean", "sum") and rnd.random() < 0.25:
+            # signed weights (adjustments, differences of two weightings): a cell whose valid weights cancel has no mean,
+            # whatever its weighted sum is
+            case.weights["w"] = [Fraction(rnd.choice([-1, 1, 1, Fraction(-1, 2), Fraction(1, 2), 2, -2])) for _ in case.weights["w"]]
         if not case.dims and case.func == "count" and (case.weights is None or case.weights["kind"] == "scalar"):
             case.N = 3
         commons = None
@@ -237,6 +241,8 @@ def gen_c05(env, tier):
             # must not depend on that, i.e. on which category happens to be stored as common.
             case = gen.shared_case(rnd.choice(["mean", "mean", "sum", "valid_count"]), nd=rnd.choice([2, 2, 3]), maxrows=8)
             case.weights = gen.weights(case.n, nondyadic=True)
+            if case.func == "mean":
+                case.weights["scale"] = rnd.choice([1, Fraction(1000, 3), Fraction(50000, 7), Fraction(10 ** 6, 13)])
             case.fmt = rnd.choice([("tuple", 0), ("tuple", -1), ("plain", 0), ("nan",)])
             if case.func == "valid_count" and case.fmt[0] == "plain":
                 case.ignore = True
@@ -413,6 +419,14 @@ def gen_c14(env, tier):
         dims = gen.dims(nd, n, extents)
         commons = [rnd.choice(cb.common_choices(rnd, d, e)) for d, e in zip(dims, extents)]
         idims = [canonical(env.iindex, d, c) for d, c in zip(dims, commons)]
+        if rnd.random() < 0.15:
+            # an index may carry an entry without rows (set_if, hand-built dicts; the library's validator accepts it): a
+            # category that holds no row matches no row, whether or not it is listed
+            for i, e in zip(idims, extents):
+                if rnd.random() < 0.6:
+                    v = rnd.choice([x for x in range(e + 2) if x != i.common] or [i.common + 1])
+                    if (v,) not in i:
+                        dict.__setitem__(i, (v,), np.array([], dtype=np.uint32))
         cube = env.ccube(idims)
         delivered, inner = [], []
         exc = None
@@ -447,13 +461,49 @@ def gen_c14(env, tier):
                                        "note": what + ("walk re-entered at delivery %d" % nest_at if nest_at else "")}
 
 
+def gen_residue(env, tier, prop):
+    """weighted means with expansion weights in the thousands that are not binary fractions, on both cubes: the cells
+    the index cube reconstructs by differencing carry a rounding residue where the exact value is 0"""
+    rnd, gen = env.rnd, env.gen
+    for _ in range(60 if tier == "quick" else 1000):
+        case = gen.shared_case("mean", nd=rnd.choice([2, 2, 3]), maxrows=8)
+        case.weights = gen.weights(case.n, nondyadic=True)
+        case.weights["scale"] = rnd.choice([Fraction(1000, 3), Fraction(50000, 7), Fraction(10 ** 6, 13)])
+        case.fmt = rnd.choice([("tuple", 0), ("tuple", -1), ("nan",)])
+        env.run_ccube(prop, case)
+        env.run_xcube(prop, case)
+
+
 def gen_c03_all(env, tier):
     gen_c03(env, tier)
+    gen_twin_dims(env, tier, "C03")
+    gen_residue(env, tier, "C03")
     gen_wide(env, tier, "C03")
+
+
+def gen_twin_dims(env, tier, prop):
+    """the same index object (array object) in two or three positions of one cube's dimension list: the cube of a
+    variable against itself (cells off the diagonal hold no row), next to an independent dimension"""
+    rnd, gen = env.rnd, env.gen
+    for _ in range(40 if tier == "quick" else 700):
+        func = rnd.choice(cb.SHARED) if prop != "C02" else "count"
+        base = gen.shared_case(func, nd=2, maxrows=8, pad=False)
+        d0, d1 = base.dims
+        layout = rnd.choice([[0, 0], [0, 0, 1], [0, 1, 0], [1, 0, 0], [0, 0, 0]])
+        dims = [(d0, d1)[k] for k in layout]
+        ishape = tuple(base.ishape[k] for k in layout)
+        case = cb.Case(dims, ishape, base.fact, base.weights if prop != "C02" else None, base.ignore, base.fmt, func)
+        objs = env.index_dims(cb.Case([d0, d1], base.ishape))
+        env.run_ccube(prop, case, idims=[objs[k] for k in layout], note="one index object in %d dimension positions" % layout.count(0))
+        if prop != "C02":
+            env.run_xcube(prop, case, note="one array in several dimension positions")
 
 
 def gen_c02_all(env, tier):
     gen_c02(env, tier)
+    gen_twin_dims(env, tier, "C02")
+    from . import c13
+    c13.pooled_blocks(env, tier, own="C02", only="count")      # the count cube through the worker pool (scheduled threads)
     gen_live(env, tier, "C02")
     gen_live(env, tier, "C02", with_axes=True)      # dimensions with two or three axes grow in place between evaluations
 
@@ -747,7 +797,7 @@ def case_from_json(c):
     if c.get("fact"):
         f = c["fact"]
         vals = [[Fraction(x) for x in r] for r in f["vals"]]
-        fact = {"vals": vals, "valid": f["valid"], "form": f["form"], "dtype": f["dtype"], "oned": f["oned"],
+        fact = {"vals": vals, "valid": f["valid"], "form": f["form"], "dtype": f["dtype"], "oned": f["oned"], "offset": f.get("offset", 0),
                 "K": len(vals[0]) if vals else (1 if f["oned"] else len(f["valid"][0]) if f["valid"] else 1)}
     w = None
     if c.get("weights"):
@@ -758,6 +808,8 @@ def case_from_json(c):
             w["w"] = [Fraction(x) for x in w["w"]]
             if "w_event" in w:
                 w["w_event"] = [Fraction(x) for x in w["w_event"]]
+            if "scale" in w:
+                w["scale"] = Fraction(str(w["scale"]))
     fmt = tuple(c["fmt"])
     if len(fmt) > 1 and isinstance(fmt[1], str):
         fmt = (fmt[0], np.datetime64(fmt[1]))
